@@ -28,6 +28,20 @@ def sh(cmd, cwd=None, env=None, timeout=1800):
     return p.returncode, p.stdout
 
 
+def save_gen():
+    """generated Lean facts are rewritten from the patched tree by the checks run here: keep the /repo versions"""
+    import glob
+    return {f: open(f).read() for f in glob.glob(os.path.join(ROOT, "lean", "MtxVerif", "Gen", "*.lean"))}
+
+
+def restore_gen(saved):
+    for f, txt in saved.items():
+        try:
+            if open(f).read() != txt: open(f, "w").write(txt)
+        except FileNotFoundError:
+            open(f, "w").write(txt)
+
+
 def main():
     pid, src, name = sys.argv[1], os.path.abspath(sys.argv[2]), sys.argv[3]
     checks = [pid]
@@ -89,6 +103,7 @@ def main():
         os.remove(os.path.join(wt, "internal/core/VERSION")); os.remove(os.path.join(wt, "internal/servers/hls/hls.min.js"))
         res["valid_seed"] = bool(res["demo_passes_without_patch"] and res["builds"] and res["demo_fails_with_patch"] and res["existing_tests_pass_with_patch"])
         res["checks"] = {}
+        gen_saved = save_gen()
         for c in checks:
             rc, out = sh([os.path.join(ROOT, "check"), c, "--tier", "quick"], cwd=ROOT, env={"VERIF_REPO": wt}, timeout=3000)
             lines = [l for l in out.splitlines() if l.startswith(("VIOLATION", "OK ", "BROKEN", "DIVERGED", "KNOWN-FINDING"))]
@@ -105,6 +120,7 @@ def main():
             res["ran"].append("VERIF_REPO=<patched worktree> ./check %s --tier quick" % c)
         # evidence files were rewritten by the runs against the patched tree: restore them from git
         sh("git checkout -- evidence", cwd=ROOT)
+        restore_gen(gen_saved)
     finally:
         sh(["git", "-C", "/repo", "worktree", "remove", "--force", wt])
     print(json.dumps(res, indent=1))
